@@ -79,7 +79,7 @@ def run(ctx):
     cv = ctx.tlc("MC_ConnView", "MC_ConnView", workers=1, label="connview", coverage=False,
                  cases_to=connview)
     ctx.require_ok(cv, "MC_ConnView")
-    if cv.ncases != 24:
+    if cv.ncases != 32:
         raise vlib.ToolError("ConnView table incomplete")
     trace = os.path.join(ctx.work, "trace.ndjson")
     devs = ",".join(sorted(ctx.open_devs))
